@@ -282,6 +282,7 @@ func runC02(c *explore.Ctx) {
 	} else {
 		mergeSweep(c, 2, 6, 2, mergeCfgsQuick, check)
 		mergeSweep(c, 3, 4, 1, mergeCfgsQuick[:1], check)
+		mergeSweep(c, 4, 3, 1, mergeCfgsQuick[:1], check)
 	}
 	largeMerges(c, check)
 }
